@@ -306,6 +306,8 @@ HandleUeNas(amf, i, t, ngapMsg) ==
                                c2 == [c1 EXCEPT !.sec = dlt.sec, !.sess = "setup", !.psi = psiHdr, !.pti = pti, !.await = @ \cup {"SUResp"}] IN
                            Res(SetCtx(amf, i, c2), << NgapEncode(PduSetupRequest(c2, ch, psiHdr, dlt.bytes)) >>,
                                common \cup (IF c.sess \in {"none", "released"} THEN {} ELSE {who \o ": PDU session establishment while a session is " \o c.sess})
+                                      \cup (IF NasOpt(m, 34).has /\ NasOpt(m, 34).v = (IF Len(Cfg.sd) = 3 THEN <<Cfg.sst>> \o Cfg.sd ELSE <<Cfg.sst>>) THEN {}
+                                            ELSE {who \o ": S-NSSAI " \o ToString(NasOpt(m, 34).v) \o " is not the configured SST/SD"})
                                       \cup (IF NasOpt(m, 128).has /\ NasOpt(m, 128).v[1] % 8 = 1 THEN {} ELSE {who \o ": request type is not initial request"}),
                                sm.m.name)
                       [] sm.m.name = "PDUSessionReleaseRequest" ->
